@@ -5,6 +5,10 @@ pub mod c05;
 pub mod c06;
 pub mod c11;
 pub mod c12;
+pub mod c13;
+pub mod c15;
+pub mod c17;
+pub mod c19;
 pub mod c20;
 
 use crate::report::{Finish, Job};
@@ -29,6 +33,10 @@ pub fn plan(prop: &str, tier: Tier) -> Option<Plan> {
     "C06" => Some(c06::plan(tier)),
     "C11" => Some(c11::plan(tier)),
     "C12" => Some(c12::plan(tier)),
+    "C13" => Some(c13::plan(tier)),
+    "C15" => Some(c15::plan(tier)),
+    "C17" => Some(c17::plan(tier)),
+    "C19" => Some(c19::plan(tier)),
     "C20" => Some(c20::plan(tier)),
     _ => None,
   }
